@@ -16,7 +16,7 @@ META = {
     "outside": "payloads longer than 16 bytes for the stub clauses (the stub path does not look at them)",
     "assumptions": ["MSM numbers pinned in spec/msm.json: 1071-77,1081-87,...,1131-37; reserved numbers inside 1070-1229 may report either"],
 }
-WALL_BUDGET = {"quick": 480, "thorough": 3000}
+WALL_BUDGET = {"quick": 900, "thorough": 3000}
 
 
 def jobs(tier, seed):
